@@ -122,7 +122,7 @@ fn eq8<T: PartialEq + Copy>(a: &[T; 8], b: &[T; 8]) -> bool {
 }
 
 pub(crate) fn mk_e256(h: [u32; 8], processed: u64, buffer: [u8; 64], idx: usize, finished: bool) -> Engine256 {
-    Engine256 { processed_bytes: processed, buffer: mk_fb(buffer, idx), state: eng256::Engine::new(&h), finished }
+    Engine256 { processed_bytes: processed as _, buffer: mk_fb(buffer, idx), state: eng256::Engine::new(&h), finished }
 }
 pub(crate) fn mk_e256_nf(h: [u32; 8], processed: u64, buffer: [u8; 64], idx: usize) -> Engine256 {
     mk_e256(h, processed, buffer, idx, false)
@@ -132,7 +132,7 @@ pub(crate) fn mk_e256_anyfin(h: [u32; 8], processed: u64, buffer: [u8; 64], idx:
     mk_e256(h, processed, buffer, idx, finished)
 }
 pub(crate) fn mk_e512(h: [u64; 8], processed: u128, buffer: [u8; 128], idx: usize) -> Engine512 {
-    Engine512 { processed_bytes: processed, buffer: mk_fb(buffer, idx), state: eng512::Engine::new(&h) }
+    Engine512 { processed_bytes: processed as _, buffer: mk_fb(buffer, idx), state: eng512::Engine::new(&h) }
 }
 
 // ------------------------------------------------------------------------------------------------ finish / input steps
@@ -279,7 +279,7 @@ macro_rules! engine_cases {
 
                 let total = idx + len;
                 let nblk = blocks_of::<$bs>(total);
-                vassert!(e.processed_bytes == a.processed + (len as $cnt), "input: processed_bytes += input length");
+                vassert!((e.processed_bytes as u128) == (a.processed + (len as $cnt)) as u128, "input: processed_bytes += input length"); // (casts: the check must still compile if the counter type is changed)
                 let nidx = total - nblk * $bs;
                 vassert!(fb_idx(&e.buffer) == nidx, "input: buffer fill == stream length mod block size");
                 let nbuf = fb_buf(&e.buffer);
@@ -466,7 +466,7 @@ macro_rules! variant_cases {
                 #[cfg(kani)]
                 unsafe {
                     vassert!(IN_N == 1 && IN_PTR == p && IN_LEN == l, "update: exactly one engine.input call, on the caller's slice");
-                    vassert!(c1.engine.processed_bytes == a.processed + 1, "update: returns the context that was fed");
+                    vassert!((c1.engine.processed_bytes as u128) == (a.processed + 1) as u128, "update: returns the context that was fed");
                 }
                 in_reset();
                 c2.update_mut(data.get());
